@@ -501,7 +501,7 @@ theorem glyph_rebuild_full (g t : Glyph) (ht : t.Fresh) (hw : g.DictsWF) (hs : g
     String.reduceEq, or_false, or_true, and_true, List.mem_nil_iff, Glyph.getField]
   rw [sf_name, sf_unicodes, sf_width, sf_height, sf_note, sf_lib, sf_tempLib, sf_contours, sf_components,
     sf_guidelines, sf_anchors, sf_image]
-  rw [dictObj_ser _ hw.lib, dictObj_ser _ hw.tempLib, dictObj_ser _ hw.image,
+  rw [dictObj_ser _ hw.lib, dictObj_ser _ hw.tempLib, dictObj_ser _ hw.image.1,
     map_ser_dicts _ hw.anchors, map_ser_dicts _ hw.guidelines]
   rw [setContours_ser _ _ (by simpa [Glyph.setLib, Glyph.setTempLib] using h1), setComponents_ser, setGuidelines_items,
     setAnchors_items, setImage_fresh _ _ (by simpa [Glyph.setLib, Glyph.setTempLib] using h6)]
@@ -523,7 +523,7 @@ theorem glyph_rebuild_shallow (g t : Glyph) (ht : t.Fresh) (hw : g.DictsWF) (l :
     String.reduceEq, or_false, or_true, and_true, List.mem_nil_iff, Glyph.getField, hs, Option.map_some]
   rw [sf_name, sf_unicodes, sf_width, sf_height, sf_note, sf_lib, sf_tempLib, sf_shallow, sf_components,
     sf_guidelines, sf_anchors, sf_image]
-  rw [dictObj_ser _ hw.lib, dictObj_ser _ hw.tempLib, dictObj_ser _ hw.image,
+  rw [dictObj_ser _ hw.lib, dictObj_ser _ hw.tempLib, dictObj_ser _ hw.image.1,
     map_ser_dicts _ hw.anchors, map_ser_dicts _ hw.guidelines]
   rw [setComponents_ser, setGuidelines_items,
     setAnchors_items, setImage_fresh _ _ (by simpa [Glyph.setLib, Glyph.setTempLib, Glyph.setShallow] using h6)]
@@ -911,7 +911,7 @@ theorem info_setProp_self (k : String) (v : Val) (i : DictObj) (hv : v ≠ pyNon
   unfold Info.setProp
   split
   · assumption
-  · simp [hv, dictGet_set_self]
+  · simp [dictGet_set_self]
 
 theorem info_applySetters (data : Dict) (hd : ∀ k v, AL.get? data k = some v → v ≠ pyNone)
     (ks : List String) (t : DictObj) (k : String) :
@@ -969,6 +969,290 @@ theorem info_roundtrip (i t : DictObj) (hw : InfoWF i) (ht : ∀ k, dictGet t.it
       apply hc.2
       simp [dictGet, hv, hvn]
     · simp at hv
+
+
+/-! ### wiring of the rebuilt glyph -/
+
+theorem rebuiltFrom_childrenWired (g t : Glyph) : (Glyph.rebuiltFrom g t).ChildrenWired := by
+  constructor
+  · intro c hc
+    rw [rb_contours] at hc
+    rw [rb_disp]
+    split at hc
+    · simp at hc
+    · simp only [List.mem_map] at hc
+      obtain ⟨c0, _, rfl⟩ := hc
+      exact ⟨rfl, rfl⟩
+  · intro c hc
+    rw [rb_components] at hc
+    simp only [List.mem_map] at hc
+    obtain ⟨c0, _, rfl⟩ := hc
+    exact ⟨rfl, rfl⟩
+  · intro c hc
+    rw [rb_anchors] at hc
+    simp only [List.mem_map] at hc
+    obtain ⟨c0, _, rfl⟩ := hc
+    exact ⟨rfl, rfl⟩
+  · intro c hc
+    rw [rb_guidelines] at hc
+    simp only [List.mem_map] at hc
+    obtain ⟨c0, _, rfl⟩ := hc
+    exact ⟨rfl, rfl⟩
+  · rw [rb_lib]; exact ⟨rfl, rfl⟩
+  · rw [rb_tempLib]
+  · intro i hi
+    rw [rb_image] at hi
+    cases hi
+    exact ⟨rfl, rfl⟩
+
+theorem rebuiltFrom_loaded_childrenWired (g t : Glyph) : (Glyph.rebuiltFrom g t).fullyLoad.ChildrenWired := by
+  cases hs : g.shallow with
+  | none =>
+    rw [fullyLoad_noShallow _ (by rw [rb_shallow]; exact hs)]
+    exact rebuiltFrom_childrenWired g t
+  | some l =>
+    rw [fullyLoad_shallow _ l (by rw [rb_shallow]; exact hs)]
+    have h0 := rebuiltFrom_childrenWired g t
+    constructor
+    · intro c hc
+      simp only [rb_contours, hs, Option.isSome_some, if_true, List.nil_append, List.mem_map] at hc
+      obtain ⟨c0, _, rfl⟩ := hc
+      exact ⟨rfl, rfl⟩
+    · exact h0.components
+    · exact h0.anchors
+    · exact h0.guidelines
+    · exact h0.lib
+    · exact h0.tempLib
+    · exact h0.image
+
+theorem imageObj_observed (g : Glyph) (h : g.ChildrenWired) : g.imageObj.observed = g.disp := by
+  unfold Glyph.imageObj
+  cases hi : g.image with
+  | none => rfl
+  | some i => exact (h.image i hi).2
+
+theorem mem_idx {α : Type} (l : List α) (x : String × α) (h : x ∈ idx l) : x.2 ∈ l := by
+  unfold idx at h
+  simp only [List.mem_map] at h
+  obtain ⟨p, hp, rfl⟩ := h
+  exact (List.mem_zipIdx hp).2.2 ▸ List.getElem_mem _
+
+theorem glyph_propagation_true (g : Glyph) (p : String) (hw : g.Wired) :
+    ∀ pb ∈ g.propagation p true, pb.2 = true := by
+  intro pb hpb
+  have hl := hw.loaded
+  have hd : g.fullyLoad.disp = g.disp := by
+    unfold Glyph.fullyLoad
+    cases hs : g.shallow with
+    | none => rfl
+    | some l => simp only; rw [fullyLoad_fold]
+  simp only [Glyph.propagation, hw.observed, Bool.and_self, Bool.true_and, List.mem_append, List.mem_cons,
+    List.mem_map, List.mem_nil_iff, or_false] at hpb
+  rcases hpb with (((((rfl | rfl | rfl) | ⟨ic, hic, rfl⟩) | ⟨ic, hic, rfl⟩) | ⟨ic, hic, rfl⟩) | ⟨ic, hic, rfl⟩)
+  · rfl
+  · simp [hw.children.lib.2, hw.disp]
+  · simp [imageObj_observed g hw.children, hw.disp]
+  · simp [(hl.contours _ (mem_idx _ _ hic)).2, hd, hw.disp]
+  · simp [(hl.components _ (mem_idx _ _ hic)).2, hd, hw.disp]
+  · simp [(hl.anchors _ (mem_idx _ _ hic)).2, hd, hw.disp]
+  · simp [(hl.guidelines _ (mem_idx _ _ hic)).2, hd, hw.disp]
+
+theorem layer_propagation_true (ly : Layer) (p : String) (hw : ly.Wired) :
+    ∀ pb ∈ ly.propagation p true, pb.2 = true := by
+  intro pb hpb
+  simp only [Layer.propagation, hw.observed, Bool.and_self, Bool.true_and, List.mem_append, List.mem_cons,
+    List.mem_flatMap, List.mem_nil_iff, or_false] at hpb
+  rcases hpb with ((rfl | rfl) | ⟨ng, hng, hm⟩)
+  · rfl
+  · exact hw.lib.2
+  · exact glyph_propagation_true ng.2 _ (hw.glyphs ng hng) pb hm
+
+theorem layerSet_propagation_true (ls : LayerSet) (p : String) (hw : ls.Wired) :
+    ∀ pb ∈ ls.propagation p true, pb.2 = true := by
+  intro pb hpb
+  simp only [LayerSet.propagation, List.mem_flatMap] at hpb
+  obtain ⟨nl, hnl, hm⟩ := hpb
+  exact layer_propagation_true nl.2 _ (hw.layers nl hnl) pb hm
+
+theorem font_propagation_true (f : Font) (hw : f.Wired) : ∀ pb ∈ f.propagation, pb.2 = true := by
+  intro pb hpb
+  simp only [Font.propagation, List.mem_append, List.mem_cons, List.mem_map, List.mem_nil_iff, or_false,
+    hw.layers.observed] at hpb
+  rcases hpb with (((rfl | rfl | rfl | rfl | rfl | rfl | rfl) | hm) | ⟨ic, hic, rfl⟩)
+  · exact hw.features.2
+  · exact hw.data.2
+  · exact hw.images.2
+  · exact hw.groups.2
+  · exact hw.kerning.2
+  · exact hw.lib.2
+  · exact hw.info.2
+  · exact layerSet_propagation_true _ _ hw.layers pb hm
+  · exact (hw.guidelines _ (mem_idx _ _ hic)).2
+
+/-! ### wiring of rebuilt layers, layer sets, fonts -/
+
+theorem rebuiltEntry_wired (ng : Val × Glyph) : (Layer.rebuiltEntry true ng).2.Wired := by
+  have h1 := rebuiltFrom_childrenWired ng.2 (Layer.newGlyph true)
+  have h2 := rebuiltFrom_loaded_childrenWired ng.2 (Layer.newGlyph true)
+  refine ⟨rfl, rfl, rfl, ?_, ?_⟩
+  · exact ⟨h1.contours, h1.components, h1.anchors, h1.guidelines, h1.lib, h1.tempLib, h1.image⟩
+  · have e : ({ Glyph.rebuiltFrom ng.2 (Layer.newGlyph true) with name := ng.1, observed := true } : Glyph).fullyLoad
+        = { (Glyph.rebuiltFrom ng.2 (Layer.newGlyph true)).fullyLoad with name := ng.1, observed := true } := by
+      cases hs : ng.2.shallow with
+      | none =>
+        rw [fullyLoad_noShallow _ (by rw [rb_shallow]; exact hs), fullyLoad_noShallow _ (by show _ = none; rw [rb_shallow]; exact hs)]
+      | some l =>
+        rw [fullyLoad_shallow _ l (by rw [rb_shallow]; exact hs), fullyLoad_shallow _ l (by show _ = some l; rw [rb_shallow]; exact hs)]
+    unfold Layer.rebuiltEntry
+    simp only
+    rw [e]
+    exact ⟨h2.contours, h2.components, h2.anchors, h2.guidelines, h2.lib, h2.tempLib, h2.image⟩
+
+theorem layer_rebuiltFrom_wired (ly t : Layer) (hp : t.parent = true) (ho : t.observed = true) (hd : t.disp = true) :
+    (Layer.rebuiltFrom ly t).Wired := by
+  refine ⟨hp, ho, ⟨rfl, hd⟩, rfl, ?_⟩
+  intro ng hng
+  simp only [Layer.rebuiltFrom, List.mem_map] at hng
+  obtain ⟨ng0, _, rfl⟩ := hng
+  rw [hd]
+  exact rebuiltEntry_wired ng0
+
+theorem layerSet_rebuiltFrom_wired (ls t : LayerSet) (hp : t.parent = true) (ho : t.observed = true)
+    (hd : t.disp = true) : (LayerSet.rebuiltFrom ls t).Wired := by
+  refine ⟨hp, ho, ?_⟩
+  intro nl hnl
+  simp only [LayerSet.rebuiltFrom, List.mem_map] at hnl
+  obtain ⟨nl0, _, rfl⟩ := hnl
+  rw [hd]
+  exact layer_rebuiltFrom_wired nl0.2 _ rfl rfl rfl
+
+theorem info_deser_flags (d : Dict) (i : DictObj) :
+    (Info.deser d i).parent = i.parent ∧ (Info.deser d i).observed = i.observed := by
+  unfold Info.deser applySetters
+  generalize AL.keys infoProperties = ks
+  induction ks generalizing i with
+  | nil => exact ⟨rfl, rfl⟩
+  | cons k r ih =>
+    simp only [List.foldl_cons]
+    have hs : (setStep Info.setProp d i k).parent = i.parent ∧ (setStep Info.setProp d i k).observed = i.observed := by
+      unfold setStep
+      split
+      · unfold Info.setProp
+        split <;> exact ⟨rfl, rfl⟩
+      · exact ⟨rfl, rfl⟩
+    have := ih (setStep Info.setProp d i k)
+    exact ⟨this.1.trans hs.1, this.2.trans hs.2⟩
+
+theorem font_rebuiltFrom_wired (f t : Font) : (Font.rebuiltFrom f t).Wired := by
+  refine ⟨⟨rfl, rfl⟩, ⟨rfl, rfl⟩, ⟨rfl, rfl⟩, ⟨rfl, rfl⟩, ⟨rfl, rfl⟩, ⟨rfl, rfl⟩, rfl, ?_, ?_, ?_⟩
+  · have := info_deser_flags (Info.ser none none f.info) (wired t.info)
+    exact ⟨this.1, this.2⟩
+  · exact layerSet_rebuiltFrom_wired f.layers _ rfl rfl rfl
+  · intro a ha
+    simp only [Font.rebuiltFrom, List.mem_map] at ha
+    obtain ⟨a0, _, rfl⟩ := ha
+    exact ⟨rfl, rfl⟩
+
+/-! ### equal observable data, lifted -/
+
+theorem listRel_map_left {α β : Type} (R : β → α → Prop) (f : α → β) (l : List α) (h : ∀ a ∈ l, R (f a) a) :
+    ListRel R (l.map f) l := forall2_map_left R f l h
+
+theorem layer_rebuiltFrom_obsEq (ly t : Layer) (hw : ly.WF) : (Layer.rebuiltFrom ly t).ObsEq ly := by
+  refine ⟨rfl, DictEq.refl _, DictEq.refl _, ?_⟩
+  show ListRel _ (ly.glyphs.map (Layer.rebuiltEntry t.disp)) ly.glyphs
+  apply listRel_map_left
+  intro ng hng
+  refine ⟨rfl, ?_⟩
+  have h := rebuiltFrom_obsEq ng.2 (Layer.newGlyph t.disp) (hw.glyphs ng hng).image
+  exact ⟨(hw.keyed ng hng).symm, h.unicodes, h.width, h.height, h.note, h.lib, h.tempLib, h.image, h.pens,
+    h.loadState, h.components, h.anchors, h.guidelines⟩
+
+theorem layerSet_rebuiltFrom_obsEq (ls t : LayerSet) (hw : ls.WF) (hd : ls.default ∈ AL.keys ls.layers ∨ ls.default = pyNone) :
+    (LayerSet.rebuiltFrom ls t).ObsEq ls := by
+  refine ⟨?_, ?_⟩
+  · show ListRel _ (ls.layers.map (LayerSet.rebuiltEntry t.disp)) ls.layers
+    apply listRel_map_left
+    intro nl hnl
+    exact ⟨rfl, layer_rebuiltFrom_obsEq nl.2 _ (hw.layers nl hnl)⟩
+  · show (if ls.default ∈ AL.keys ls.layers then ls.default else pyNone) = ls.default
+    rcases hd with h | h
+    · simp [h]
+    · split
+      · rfl
+      · exact h.symm
+
+theorem font_rebuiltFrom_obsEq (f t : Font) (hw : f.WF) (ht : t.Fresh) : (Font.rebuiltFrom f t).ObsEq f := by
+  refine ⟨rfl, rfl, DictEq.refl _, DictEq.refl _, rfl, DictEq.refl _, DictEq.refl _, DictEq.refl _, DictEq.refl _,
+    ?_, ?_, ?_⟩
+  · intro k hk
+    exact info_roundtrip f.info (wired t.info) hw.info ht.info k hk
+  · exact layerSet_rebuiltFrom_obsEq f.layers _ hw.layers hw.layers.default
+  · show ListRel _ (f.guidelines.map _) f.guidelines
+    apply listRel_map_left
+    intro a _
+    have := guideline_build_attrs a.items
+    exact this
+
+
+/-! ### identifier registries of the rebuilt objects -/
+
+theorem rebuiltFrom_loaded_reg (g t : Glyph) (hn : g.usedIds.Nodup) :
+    (Glyph.rebuiltFrom g t).fullyLoad.reg = .ok g.usedIds := by
+  unfold Glyph.usedIds at hn ⊢
+  cases hs : g.shallow with
+  | none =>
+    rw [fullyLoad_noShallow _ (by rw [rb_shallow]; exact hs), rb_reg]
+    simp only [hs, List.append_nil] at hn ⊢
+    have := Reg.addAll_ok [] g.regIds (by simpa using hn)
+    simpa using this
+  | some l =>
+    rw [fullyLoad_shallow _ l (by rw [rb_shallow]; exact hs)]
+    simp only [rb_reg, hs] at hn ⊢
+    rw [← Reg.addAll_append]
+    have := Reg.addAll_ok [] (g.regIds ++ l.flatMap PenRec.ids) (by simpa using hn)
+    simpa using this
+
+theorem nodup_filter_of_append_left {l1 l2 : List Val} (h : ((l1 ++ l2).filter (· ≠ pyNone)).Nodup) :
+    (l1.filter (· ≠ pyNone)).Nodup := by
+  rw [List.filter_append, List.nodup_append] at h
+  exact h.1
+
+theorem rebuildError_none (g : Glyph) (hn : g.usedIds.Nodup) : g.rebuildError = none := by
+  unfold Glyph.rebuildError
+  have h1 : (g.regIds.filter (· ≠ pyNone)).Nodup := nodup_filter_of_append_left hn
+  rw [Reg.addAll_ok [] g.regIds (by simpa using h1)]
+  rfl
+
+theorem foldl_orErr_none {α : Type} (l : List α) (f : α → Option String) (h : ∀ a ∈ l, f a = none) :
+    l.foldl (fun e a => orErr e (f a)) none = none := by
+  induction l with
+  | nil => rfl
+  | cons a r ih =>
+    simp only [List.foldl_cons, h a (by simp), orErr]
+    exact ih (fun b hb => h b (by simp [hb]))
+
+theorem layer_rebuiltFrom_err (ly t : Layer) (hn : ly.IdsWF) : (Layer.rebuiltFrom ly t).err = none := by
+  show ly.glyphs.foldl (fun e ng => orErr e ng.2.rebuildError) none = none
+  exact foldl_orErr_none _ _ (fun ng hng => rebuildError_none ng.2 (hn ng hng))
+
+theorem layerSet_rebuiltFrom_err (ls t : LayerSet) (hn : ls.IdsWF) : (LayerSet.rebuiltFrom ls t).err = none := by
+  show ls.layers.foldl (fun e nl => orErr e (LayerSet.rebuiltEntry t.disp nl).2.err) none = none
+  exact foldl_orErr_none _ _ (fun nl hnl => layer_rebuiltFrom_err nl.2 _ (hn nl hnl))
+
+theorem font_rebuiltFrom_reg (f t : Font) (hn : f.usedIds.Nodup) :
+    (Font.rebuiltFrom f t).reg = .ok f.usedIds := by
+  show (Reg.ok []).addAll (f.guidelines.map dictIdent) = _
+  have := Reg.addAll_ok [] (f.guidelines.map dictIdent) (by simpa [Font.usedIds] using hn)
+  simpa [Font.usedIds] using this
+
+theorem font_rebuiltFrom_error (f t : Font) (hg : f.layers.IdsWF) (hn : f.usedIds.Nodup) :
+    (Font.rebuiltFrom f t).error = none := by
+  unfold Font.error
+  rw [font_rebuiltFrom_reg f t hn]
+  have : (Font.rebuiltFrom f t).layers.err = none := layerSet_rebuiltFrom_err f.layers _ hg
+  rw [this]
+  rfl
 
 
 end Serial
